@@ -69,6 +69,30 @@ SEEDS = {
     "C18x_B": ("C18", "generate_segmented_cylinder memoised: two lasers with equal (radius, length) share Cylinder objects", "a second laser / profile alive with exactly the same radius and length"),
     "C19_A": ("C19", "shared memo between lookup_element and lookup_isotope keyed by the raw key", "both registries queried with a key valid in both ('H') in one process"),
     "C19_B": ("C19", "Line.__richcmp__ compares element symbols while __hash__ uses the element object", "lines of hydrogen and protium with equal charge and transition"),
+    "C02y_A": ("C02", "ZeemanTriplet passes the full radiance through the pi filter when B is exactly zero", "B exactly zero at the evaluation point and polarisation='pi'"),
+    "C02y_B": ("C02", "add_lorentzian_line re-uses the integrator's StarkFunction with a stale width", "a second evaluation with a different Lorentzian width through the same (default, shared) integrator"),
+    "C03y_A": ("C03", "TotalRadiatedPower returns early when either charge state is locally absent", "a point where exactly one of the two charge states has density <= 0"),
+    "C03y_B": ("C03", "Bremsstrahlung default integrator is a shared default argument", ">= 2 models alive built with the default integrator, evaluate one that was not constructed last"),
+    "C04y_A": ("C04", "Beam._modified no longer notifies", "density evaluated, beam moved / re-parented, density again in a non-uniform plasma"),
+    "C04y_B": ("C04", "stale target_z: equivalent electron density divided by the last species' charge", ">= 2 ion species of different charge and a density-dependent stopping rate"),
+    "C05y_A": ("C05", "Composition.add() stops notifying when it replaces an existing species", "evaluate, replace a species through composition.add, evaluate (no other setter in between)"),
+    "C05y_B": ("C05", "BeamCXLine passes the relative velocity where the beam velocity is expected", ">= 2 metastables, receiver with bulk flow, energy-dependent population coefficient"),
+    "C07y_A": ("C07", "radiated-power table with a single temperature point hard-codes 'nearest' extrapolation", "Nx1 table, permit_extrapolation=False, density outside the tabulated range"),
+    "C07y_B": ("C07", "beam_population_rate reduces only one of two isotopes to its element (if/elif)", "beam and plasma species both isotopes"),
+    "C09y_A": ("C09", "point solutions memoised by (n_e, T_e) without the donor density", ">= 2 points of one call with identical n_e, T_e and different donor density"),
+    "C09y_B": ("C09", "species dictionaries stacked by insertion position instead of by charge key", "species dict whose insertion order is not ascending in charge"),
+    "C11y_A": ("C11", "invert_sart: scalar initial guess 0 replaced by the default seed (falsy)", "scalar initial_guess exactly 0 with few iterations"),
+    "C11y_B": ("C11", "invert_regularised_lstsq builds the stacked matrix in the geometry matrix's dtype", "integer-dtype geometry matrix (alpha*L entries truncate)"),
+    "C12y_A": ("C12", "zero-field guard in FluxCoordToCartesian uses 'or' instead of 'and'", "a point where exactly one in-plane field component is exactly zero (midplane of a symmetric grid)"),
+    "C12y_B": ("C12", "AxisymmetricMapper fast path for y == 0 forgets negative x", "3-D point with y exactly 0 and x < 0"),
+    "C13y_A": ("C13", "VectorAxisymmetricMapper divides by r (NaN on the axis)", "evaluation exactly on the symmetry axis"),
+    "C13y_B": ("C13", "ClampInput3D clamps z against the y upper bound", "zmax != ymax and z above min(zmax, ymax)"),
+    "C17y_A": ("C17", "cross_sectional_area as a fan from the first vertex with abs() per term", "concave polygon whose first stored vertex does not see the whole polygon"),
+    "C17y_B": ("C17", "emissivities_from_function returns a retained output buffer", "sample f1, keep the result, sample f2 on the same grid, look at the first result"),
+    "C19y_A": ("C19", "integer atomic-number fast path assumes a gap-free element table", "atomic number passed as int with Z between 43 and 84"),
+    "C19y_B": ("C19", "indices built lazily; the (element, number) branch of lookup_isotope never builds the isotope index", "first isotope look-up of a fresh process uses the element + mass-number form"),
+    "C20y_A": ("C20", "derivative operators allocated in the dtype of the vertex array", "vertices passed as an integer array, grid with >= 3 rows or columns"),
+    "C20y_B": ("C20", "isotropic fast path in calculate_admt drops the (1/R) d/dx term", "anisotropy exactly 1"),
     "C20_A": ("C20", "dx, dy derived from the grid extent with row/column counts swapped", "non-square grid"),
     "C20_B": ("C20", "calculate_admt scales the caller's derivative operators in place", "second use of the same operators dict"),
 }
